@@ -331,7 +331,9 @@ def queries(tier):
         cubes = list(slot_cubes(3, "SIiPG", first="S", extra=zl3)) + \
             [c for c in slot_cubes(3, "SI", first="IPN", extra=zl3) if c[0][1] == "S"]
     else:
-        cubes = list(slot_cubes(3, "SsIiPQoNFG", extra=zl3))
+        # (thorough: 4 x 9 x 9 = 324 cubes; the first transaction is a SETUP (valid / corrupted), an IN or nothing -- an OUT,
+        #  PING or SOF before the first SETUP changes nothing the later slots do not also exercise)
+        cubes = list(slot_cubes(3, "SsIiPQoNG", first="SsIN", extra=zl3))
     ALL = ["in_gets_ack", "out_gets_data", "setup_ack", "corrupt_setup_silent", "data_stage_only", "zlp_stage",
            "status_out_ack", "other_ep_silent", "single_response", "fresh_first_response"]
     for name, layer in cubes:
@@ -350,10 +352,10 @@ def queries(tier):
     if tier == "thorough":
         qs.append(Query("covers_4slots", f4, 32 * 4 + 2, asserts=[], hints=hints, timeout=900, split=False,
                         covers=["fresh_after_abandoned_data"], desc="witness: fresh transfer after an abandoned data stage"))
-        for name, layer in slot_cubes(4, "SIiP", first="S", extra=zl4):
+        for name, layer in slot_cubes(4, "SIP", first="S", extra=zl4):
             qs.append(Query(f"bmc_4slots_{name}", f4, 32 * 4 + 2, layer=layer, covers=[], timeout=900, split=False,
                             desc=f"4 transactions {name}"))
-        for name, layer in slot_cubes(3, "SIiP", first="S", extra=zl3):
+        for name, layer in slot_cubes(3, "SIP", first="S", extra=zl3):
             layer = dict(layer)
             qs.append(Query(f"bmc_selfcomposition_{name}", fc, 32 * 3 + 2, layer=layer, timeout=1200, required=False,
                             asserts=["fresh"], covers=[], split=False,
